@@ -80,6 +80,32 @@ def ratioSOB (zeroBkg s b : F) : F := if 0 < b then s / b else zeroBkg
 /-- `PDFRatioProduct.get_ratio`: `r1 * r2` element-wise -/
 def ratioProduct (r1 r2 : List F) : List F := List.zipWith (· * ·) r1 r2
 
+/-- as `ratioProduct`, reporting the shape mismatch on which numpy raises (`zipWith` alone would
+silently truncate) -/
+def ratioProductChecked (r1 r2 : List F) : Option (List F) :=
+  if r1.length = r2.length then some (ratioProduct r1 r2) else none
+
+/-- `SigOverBkgPDFRatio.get_ratio` on the values array: the signal densities `s` come per value
+(one per (source, event) pair), the background densities `b` per *selected event*;
+`broadcast_selected_events_arrays_to_values_arrays` is `np.take(b, evt_idxs)`.  `none` when an event
+index is out of range (numpy raises `IndexError`) or the lengths of `s` and `evt_idxs` differ. -/
+def sobValues (zb : F) (s b : List F) (evtIdx : List Nat) : Option (List F) :=
+  if s.length ≠ evtIdx.length then none else
+  (List.zip s evtIdx).mapM (fun p => (b[p.2]?).map (fun bv => ratioSOB zb p.1 bv))
+
+/-- the guarded evaluation: the region in which the code returns a finite number.  For `N = 0` the
+code divides by zero, for `ns ≥ N` the pure-background term is `log1p(x)` with `x ≤ -1`
+(`-inf`/`nan`); both are reported as `none`. -/
+def llrChecked (opa : F) (N : Nat) (ns : F) (Rs : List F) : Option F :=
+  if 0 < N ∧ ns < Transc.ofN N then some (llrOfRatios opa N ns Rs) else none
+
+/-- `evaluate` on raw events with an event selection: `keep` says which events the selection keeps,
+the total event count is the explicit `n_events` or by default the number of *raw* events
+(`trialCounts`), the ratios of the kept events enter the sum. -/
+def evalSel (opa : F) (nArg : Option Nat) (ns : F) (Rs : List F) (keep : List Bool) : F :=
+  let sel := ((Rs.zip keep).filter (fun p => p.2)).map (fun p => p.1)
+  llrOfRatios opa (trialCounts nArg Rs.length sel.length).1 ns sel
+
 end
 
 end LLH
